@@ -50,7 +50,7 @@ func (cs *c07Case) name() string {
 // c07LongName is a base name too long for a temporary sibling of the form
 // ".<name>.gopatch-<n>" to exist: whatever gopatch does to write such a file
 // (or to refuse), what ends up on disk with exit status 0 must parse.
-var c07LongName = strings.Repeat("n", 236) + ".go"
+var c07LongName = strings.Repeat("n", 246) + ".go"
 
 // Templates that put captured code where it may not fit.
 var c07Patches = []string{
